@@ -9,3 +9,4 @@ echo "$out" | grep -E '^FIRED|VIOLATED|UNDECIDED|VIOLATION|fatal' | head -20
 echo "check-all exit=$rc"
 ./tools_validate.sh | grep -v '^ok' 
 git -C /repo status --short | head -3
+[ $rc -eq 0 ] || { echo "PRECOMMIT FAILED: check-all exit=$rc"; exit 1; }
